@@ -123,10 +123,19 @@ def main(argv=None):
     ap.add_argument('--replay', default=None)
     ap.add_argument('--jobs', type=int, default=int(os.environ.get('VERIF_JOBS', os.cpu_count() or 4)))
     ap.add_argument('--no-evidence', action='store_true')
+    ap.add_argument('--budget', type=int, default=None,
+                    help='wall seconds after which no further obligation is STARTED (0 = none); default: none for quick, '
+                         'VERIF_BUDGET or 1200 for thorough.  Obligations not started are reported as not attempted (inconclusive)')
+    ap.add_argument('--cap', type=int, default=None,
+                    help='upper limit on the per-obligation time budget (0 = none); default: none for quick, VERIF_JOB_CAP or 1500 for thorough')
     ap.add_argument('-v', action='store_true')
     a = ap.parse_args(argv)
     pid = a.prop.upper()
     seed = int(os.environ.get('VERIF_SEED', '0') or 0)
+    if a.budget is None:
+        a.budget = 0 if a.tier == 'quick' else int(os.environ.get('VERIF_BUDGET', '1200') or 0)
+    if a.cap is None:
+        a.cap = 0 if a.tier == 'quick' else int(os.environ.get('VERIF_JOB_CAP', '1500') or 0)
     if a.replay:
         return subprocess.call([a.replay])
     t_start = time.time()
@@ -171,13 +180,22 @@ def main(argv=None):
     jobs = []
     for m in metas:
         plist = m.quick if a.tier == 'quick' else m.thorough
+        quick_keys = set()
+        for qp in m.quick:
+            qp = dict(qp)
+            qp.pop('timeout', None)
+            qp.pop('per_path', None)
+            quick_keys.add(json.dumps(qp, sort_keys=True))
         for i, params in enumerate(plist):
             params = dict(params)
             timeout = params.pop('timeout', m.timeout)
+            if a.cap:
+                timeout = min(timeout, a.cap)
             per_path = params.pop('per_path', m.per_path)
             target = '%s:%s' % (m.fn.__module__, m.fn.__name__)
             base = {'name': m.name, 'target': target, 'params': params, 'timeout': timeout, 'per_path': per_path,
-                    'kind': getattr(m, 'kind', 'chx'), 'meta': m}
+                    'kind': getattr(m, 'kind', 'chx'), 'meta': m,
+                    'in_quick': json.dumps(params, sort_keys=True) in quick_keys}
             jobs.append(dict(base, twin=False, canary=False))
             if base['kind'] == 'chx':
                 jobs.append(dict(base, twin=True, canary=False, timeout=m.twin_timeout))
@@ -190,9 +208,16 @@ def main(argv=None):
                          'kind': 'chx', 'meta': m, 'twin': False, 'canary': True})
     rnd = __import__('random').Random(seed)
     rnd.shuffle(jobs)
-    jobs.sort(key=lambda j: -j['timeout'])
+    if a.budget:
+        # the obligations of the quick tier first (longest first), then the deeper ones, cheapest first
+        jobs.sort(key=lambda j: (0, -j['timeout']) if (j.get('in_quick') or j.get('canary')) else (1, j['timeout']))
+    else:
+        jobs.sort(key=lambda j: -j['timeout'])
 
     def run_job(j):
+        if a.budget and time.time() - t_start > a.budget and not (j.get('in_quick') or j.get('canary')):
+            return j, {'verdict': 'NOT-RUN', 'message': 'not started: wall budget of %d s used up' % a.budget, 'paths': 0,
+                       'nontrivial_paths': 0, 'confirmed_paths': 0, 'solver_queries': 0, 'solver_s': 0, 'wall_s': 0, 'functions': []}
         if j['kind'] == 'chx':
             cmd = [PY, '-m', 'vfy.worker', j['target'], json.dumps(j['params']), str(j['timeout']), str(j['per_path'])]
             if j['twin']:
@@ -216,6 +241,8 @@ def main(argv=None):
     with cf.ThreadPoolExecutor(max_workers=max(1, a.jobs)) as ex:
         for j, res in ex.map(run_job, jobs):
             results.append((j, res))
+            if res['verdict'] == 'NOT-RUN':
+                continue
             if a.v or (not j['twin']):
                 log('  %-7s %-28s %s %-10s paths=%-6s solver=%.1fs wall=%.1fs %s'
                     % ('twin' if j['twin'] else 'canary' if j.get('canary') else j['kind'], j['name'], json.dumps(j['params']), res['verdict'],
@@ -238,10 +265,14 @@ def main(argv=None):
             if not ok:
                 inconclusive.append('canary %s %s was not refuted (%s): the lemma is not sensitive to a known-false variant'
                                     % (j['name'], j['params'], r['verdict']))
+    not_attempted = []
     for j, r in results:
         if j['twin'] or j.get('canary'):
             continue
         obligations += 1
+        if r['verdict'] == 'NOT-RUN':
+            not_attempted.append({'lemma': j['name'], 'params': j['params']})
+            continue
         key = (j['name'], json.dumps(j['params'], sort_keys=True))
         tw = twins.get(key)
         row = {'lemma': j['name'], 'engine': j['kind'], 'params': j['params'], 'verdict': r['verdict'],
@@ -283,6 +314,10 @@ def main(argv=None):
         else:
             inconclusive.append('%s %s: %s %s' % (j['name'], j['params'], v, (r.get('message') or '')[:200]))
         lemma_rows.append(row)
+
+    if not_attempted:
+        inconclusive.append('%d obligation(s) of this tier were not started within the wall budget of %d s (listed under coverage.not_attempted; '
+                            'run with --budget 0 for the complete list)' % (len(not_attempted), a.budget))
 
     # ---- concrete side conditions & known findings ----------------------------------
     side = []
@@ -362,6 +397,7 @@ def main(argv=None):
                     '(CrossHair never revisits a decision prefix) and non-trivial iff it contains >= 1 solver-decided branch on a symbolic input (counted in the worker)',
             'samples': samples,
             'obligations': obligations, 'discharged': discharged, 'inconclusive': inconclusive,
+            'not_attempted': not_attempted, 'wall_budget_s': a.budget, 'per_obligation_cap_s': a.cap,
             'exhaustive': bool(obligations and discharged == obligations and not inconclusive),
             'explanation': 'each obligation is one lemma x parameter set; discharged = CrossHair "Confirmed over all paths" (every feasible path within the bound executed, post-condition held) with a refuted reachability twin, or z3 unsat for a regular-language query',
             'paths': paths, 'solver_queries': queries,
